@@ -141,18 +141,23 @@ def freeze(v):
 
 
 def registry_snapshot():
+    """Deep copy of the registries (compiled patterns are atomic for deepcopy, so they stay the identical objects)."""
+    import copy as _copy
     from schwifty import registry
-    return {str(k): freeze(v) for k, v in registry._registry.items()}
+    return {str(k): _copy.deepcopy(v) for k, v in registry._registry.items()}
 
 
 def registry_diff(base):
-    """None if the registries equal `base`, else the name of the first differing one."""
-    now = registry_snapshot()
-    if now.keys() != base.keys():
-        return "set of registries: " + ",".join(sorted(set(now) ^ set(base)))
-    for k in base:
-        if now[k] != base[k]:
-            return k
+    """None if the registries equal `base`, else the name of the first differing one. C-level ==: lists are compared
+    in order (an in-place sort is a difference), dictionaries by content."""
+    from schwifty import registry
+    now = registry._registry
+    names = {str(k): k for k in now}
+    if names.keys() != base.keys():
+        return "set of registries: " + ",".join(sorted(set(names) ^ set(base)))
+    for name, key in names.items():
+        if now[key] != base[name]:
+            return name
     return None
 
 
